@@ -60,7 +60,8 @@ PROVED = ('For every start-up script, every peer start state and every interleav
           'command histories; the cached-tuple variant is refuted. Round 6: with a fresh result per transfer every instance reads '
           'exactly the answers of its own transfers in order under every interleaving; a result cell shared per dongle is refuted. Wave 12: the statistics update run inside the radio loop never raises '
           '(HEAD guard structure), the unguarded report is refuted. Wave 13: the frame is the whole packet (header :: payload, up to 31 bytes); '
-          'truncation at 30 bytes of frame is refuted.')
+          'truncation at 30 bytes of frame is refuted. Wave 15: instance ids of one dongle are pairwise distinct over every open/close '
+          'history (counter); numbering by the count of open instances is refuted.')
 NOT_PROVED = ('No guarantee when the negotiation is not confirmed but the peer enabled safelink (two generals) nor after an '
               'exception of radio.send_packet (refuted by witness). Not modelled: wall-clock time, pause()/restart(), rate '
               'limiting and relaxation sleeps, the shared-radio multiplexing thread, rate/RSSI/congestion statistics (only '
@@ -214,9 +215,24 @@ def compare_cases(terms, expected):
     return out
 
 
-def run_impl(case):
+def run_impl(case, timeout=None):
     from fakes import c01_radio
-    return c01_radio.run_case(case)
+    return c01_radio.run_case(case, timeout)
+
+
+def _err_text():
+    """text of the exception being handled; 'BLOCKED: …' / 'SKIPPED: …' for a case stopped by the watchdog"""
+    import sys
+    import traceback
+    from fakes import c01_radio
+    e = sys.exc_info()[1]
+    if isinstance(e, c01_radio.Blocked):
+        return '%s | stuck in: %s' % (e, e.where)
+    return traceback.format_exc()[-1200:]
+
+
+def _crash_class(err):
+    return 'radio_thread_blocked' if str(err).startswith('BLOCKED') else None if str(err).startswith('SKIPPED') else 'radio_loop_raised'
 
 
 # ------------------------------------------------------------------ case generation
@@ -492,11 +508,13 @@ def shared_case(rng, maxlen):
         elif r < 0.58:
             nb += 1
             evs.append(['BS', [_app_hdr(rng), nb & 0xff, rng.randrange(256)]])
+        elif r < 0.66:
+            evs.append(rng.choice([['CL', 'x'], ['CL', 'y'], ['CL', 'b'], ['OP', 'x'], ['OP', 'y'], ['OP', 'z'], ['CL', 'z'], ['GS']]))
         else:
             evs.append(['T', rng.choice('OOOOUA'), rng.choice([[], [1, 0x23]])])
     evs.append(['D'])
     c = {'shared': 1, 'N': rng.choice([3, 5, 100]), 'p0': dict(P0_STD), 'negs': rng.choice([['O'], ['U', 'A', 'O']]),
-         'evs': evs, 'family': 'shared'}
+         'evs': evs, 'family': 'shared', 'pre': rng.choice([[], [], ['x'], ['x', 'y'], ['y', 'x']])}
     if rng.random() < 0.3:
         c['close'] = 1
     return c
@@ -510,6 +528,13 @@ def shared_cases(ctx):
             evs = [['S', 0x3c, _full([1], MAX_UP)], ['T', 'O', []], ['S', 0x4d, [2]]]
             evs.insert(pos, list(side))
             out.append({'shared': 1, 'N': 3, 'p0': dict(P0_STD), 'negs': ['O'], 'evs': evs + [['D']], 'family': 'shared'})
+    # open/close HISTORIES of instances on the one dongle: others opened before the link, closed in every order while the
+    # link is in use, then somebody new arrives (a third instance, a scan, a status query, link B)
+    for pre in (['x'], ['x', 'y'], ['y', 'x']):
+        for closing in ([['CL', 'x']], [['CL', 'y']], [['CL', 'x'], ['CL', 'y']], [['CL', 'y'], ['CL', 'x']]):
+            for newcomer in (['OP', 'z'], ['GS'], ['SC', None], ['BS', [0x5c, 1, 2]]):
+                evs = [['S', 0x3c, [1]], ['T', 'O', []]] + [list(e) for e in closing] + [list(newcomer), ['S', 0x4d, [2]], ['Q', 0x50, [3]]]
+                out.append({'shared': 1, 'N': 3, 'p0': dict(P0_STD), 'negs': ['O'], 'pre': list(pre), 'evs': evs + [['D']], 'family': 'shared'})
     out += [shared_case(ctx.rng, ctx.scale(30, 80)) for _ in range(ctx.scale(25, 400))]
     return out
 
@@ -565,6 +590,13 @@ def coq_commands(seen):
 
 
 _cmd_runs = {}
+CMD_AIR = [(125, 2, (0xe7,) * 5), (40, 1, (1, 2, 3, 4, 5))]
+
+
+def _run_cmds(cmds, timeout=8):
+    from fakes import c01_shared, c01_radio
+    return c01_radio.bounded(lambda: c01_shared.run_commands(cmds, air=CMD_AIR), timeout)
+
 
 
 def command_results(ctx):
@@ -577,10 +609,9 @@ def command_results(ctx):
                   ['scanc', 1, 0, (0xe7,) * 5, 0, 3], ['send', 0, (80, 2, (0xe7, 0xe7, 0xe7, 0xe7, 1)), [60, 1]]]]
         for cmds in fixed + [command_history(rng, rng.randrange(3, 40)) for _ in range(ctx.scale(40, 600))]:
             try:
-                out.append((cmds,) + tuple(c01_shared.run_commands(cmds, air=[(125, 2, (0xe7,) * 5), (40, 1, (1, 2, 3, 4, 5))])))
+                out.append((cmds,) + tuple(_run_cmds(cmds)))
             except Exception:
-                import traceback
-                out.append((cmds, None, None, None, traceback.format_exc()[-800:]))
+                out.append((cmds, None, None, None, _err_text()[-800:]))
         _cmd_runs.clear()
         _cmd_runs[key] = out
     return _cmd_runs[key]
@@ -637,8 +668,7 @@ def pair_results(ctx):
             try:
                 out.append((c, run_impl(c), None))
             except Exception:
-                import traceback
-                out.append((c, None, traceback.format_exc()[-1000:]))
+                out.append((c, None, _err_text()))
         _pair_runs.clear()
         _pair_runs[key] = out
     return _pair_runs[key]
@@ -649,7 +679,7 @@ def judge_pair(case, res):
     fails = []
     pc = {k: v for k, v in case.items() if k != 'family'}
     if res.hung or any(s.crashed for s in res.sims.values()):
-        return [{'class': 'radio_loop_hung' if res.hung else 'radio_loop_raised', 'case': pc, 'expected': 'both sessions end',
+        return [{'class': 'radio_thread_blocked' if res.hung else 'radio_loop_raised', 'case': pc, 'expected': 'both sessions end',
                  'observed': {n: s.crashed for n, s in res.sims.items()}, 'detail': 'two links on one dongle'}]
     for n, other in (('A', 'B'), ('B', 'A')):
         sim, osim = res.sims[n], res.sims[other]
@@ -778,9 +808,8 @@ def results(ctx):
         for c in all_cases(ctx):
             try:
                 out.append((c, run_impl(c), None))
-            except Exception as e:  # the real code raised: reported by tie (no observation) and oracle
-                import traceback
-                out.append((c, None, traceback.format_exc()[-1200:]))
+            except Exception:
+                out.append((c, None, _err_text()))
         _runs.clear()
         _runs[key] = out
     return _runs[key]
@@ -815,7 +844,8 @@ def tie(ctx):
     for i, (c, sim, err) in enumerate(res):
         dist[c.get('family', 'random')] += 1
         if sim is None:
-            dis.append({'what': 'the real radio loop raised on a scripted session', 'case': c, 'impl': err, 'model': None})
+            if _crash_class(err):
+                dis.append({'what': 'the real radio loop raised or got stuck on a scripted session', 'case': c, 'impl': err, 'model': None})
             continue
         ec = explicit(c, sim)
         if c.get('family') == 'idle':
@@ -853,6 +883,8 @@ def tie(ctx):
     # ---- two complete links on one dongle under the gate: each link observes exactly what it would observe alone
     for c, pres, err in pair_results(ctx):
         dist['pair'] = dist.get('pair', 0) + 1
+        if pres is None and _crash_class(err) is None:
+            continue
         if pres is None or pres.hung or any(s.crashed for s in pres.sims.values()):
             dis.append({'what': 'two links on one dongle: the real stack raised or hung', 'case': c,
                         'impl': err or {n: s.crashed for n, s in pres.sims.items()}, 'model': None})
@@ -888,6 +920,14 @@ def tie(ctx):
             flat += [ch, dr, len(addr)] + list(addr) + [len(data)] + data
         cterms.append(coq_commands(r[2]))
         cexp.append(flat)
+        cidx.append(k)
+    # instance ids handed out over the open/close history == Model.irun_counter
+    for k, r in enumerate(cres):
+        if r[1] is None or not r[3] or not isinstance(r[3][-1], dict):
+            continue
+        info = r[3][-1]
+        cterms.append('snd (irun_counter [%s])' % '; '.join('IOpen' if e[0] == 'open' else 'IClose %d' % e[1] for e in info['ievs']))
+        cexp.append(list(info['open_ids']))
         cidx.append(k)
     for bi, mv in compare_cases(cterms, cexp):
         if len(dis) < 8:
@@ -985,7 +1025,7 @@ def judge(case, sim):
                       'expected': expected, 'observed': observed, 'detail': detail})
     fin = sim.final
     if getattr(sim, 'hung', False):
-        fail('radio_loop_hung', 'session ends', 'threads still alive after the timeout', 'real-thread session did not finish')
+        fail('radio_thread_blocked', 'session ends', 'threads still alive after the timeout', 'real-thread session did not finish')
         return fails
     # ---- safelink only if confirmed DURING THAT START-UP; needs_resending; per session of the driver object
     confirmed = True
@@ -1096,6 +1136,15 @@ def judge(case, sim):
 
 
 def _shrink(case, cls, budget=250):
+    from fakes import c01_radio
+    c01_radio._blocks['shrinking'] = True
+    try:
+        return _shrink_body(case, cls, budget)
+    finally:
+        c01_radio._blocks['shrinking'] = False
+
+
+def _shrink_body(case, cls, budget=250):
     """shortest event prefix (+ drain if the case had one) that still fails with the same class"""
     evs = case['evs']
     drained = bool(evs) and evs[-1][0] == 'D'
@@ -1103,13 +1152,17 @@ def _shrink(case, cls, budget=250):
     best = case
     runs = 0
 
+    t_end = __import__('time').time() + 45
+
     def still(c):
         nonlocal runs
         runs += 1
+        if __import__('time').time() > t_end:
+            return False
         try:
-            return any(f['class'] == cls for f in judge(c, run_impl(c)))
+            return any(f['class'] == cls for f in judge(c, run_impl(c, 3 if cls == 'radio_thread_blocked' else None)))
         except Exception:
-            return cls == 'radio_loop_raised'
+            return _crash_class(_err_text()) == cls
     for n in range(1, len(body)):
         if runs >= budget:
             break
@@ -1165,29 +1218,35 @@ def _shrink_pair(f, budget=60):
     return best
 
 
-def _cmds_fail(cmds):
-    from fakes import c01_shared
+def _cmds_fail(cmds, crash=False):
     try:
-        _, _, _, sends = c01_shared.run_commands(cmds, air=[(125, 2, (0xe7,) * 5), (40, 1, (1, 2, 3, 4, 5))])
+        _, _, _, sends = _run_cmds(cmds, 3)
     except Exception:
         return True
-    return any(act is None or tuple(act) != tuple(req) for req, act, _ in sends)
+    return (not crash) and any(act is None or tuple(act) != tuple(req) for req, act, _ in sends)
 
 
-def _shrink_cmds(cmds, budget=150):
+def _shrink_cmds(cmds, budget=150, crash=False):
+    import time
+    from fakes import c01_radio
     best = list(cmds)
-    i, runs = 1, 0
-    while i < len(best) and runs < budget:
-        c = best[:i] + best[i + 1:]
-        runs += 1
-        if _cmds_fail(c):
-            best = c
-        else:
-            i += 1
+    i, runs, t_end = 1, 0, time.time() + 40
+    c01_radio._blocks['shrinking'] = True
+    try:
+        while i < len(best) and runs < budget and time.time() < t_end:
+            c = best[:i] + best[i + 1:]
+            runs += 1
+            if _cmds_fail(c, crash):
+                best = c
+            else:
+                i += 1
+    finally:
+        c01_radio._blocks['shrinking'] = False
     return best
 
 
 def oracle(ctx, deep=False):
+    from fakes import c01_radio as c01_radio_mod
     res = list(results(ctx))
     if deep:
         extra = enum_cases(8, 6) + [random_case(ctx.rng, 200) for _ in range(1500)]
@@ -1195,8 +1254,7 @@ def oracle(ctx, deep=False):
             try:
                 res.append((c, run_impl(c), None))
             except Exception:
-                import traceback
-                res.append((c, None, traceback.format_exc()[-1200:]))
+                res.append((c, None, _err_text()))
     # link statistics must not influence the link: same script with a statistics callback and a statistics clock
     # that makes every rate/congestion branch run => identical observations
     stat_fail = None
@@ -1213,8 +1271,8 @@ def oracle(ctx, deep=False):
             if not same or (not c.get('more') and any(t.get('ack') is True for t in s2.tx) and not s2.stats):
                 stat_fail = (c, 'observations differ' if not same else 'statistics callback never called')
         except Exception:
-            import traceback
-            stat_fail = (c, traceback.format_exc()[-600:])
+            if _crash_class(_err_text()) == 'radio_loop_raised':
+                stat_fail = (c, _err_text()[-600:])
         if stat_fail:
             break
     # real-thread sessions (non-deterministic schedules; oracle only)
@@ -1224,22 +1282,25 @@ def oracle(ctx, deep=False):
         try:
             res.append((c, run_impl(c), None))
         except Exception:
-            import traceback
-            res.append((c, None, traceback.format_exc()[-1200:]))
+            res.append((c, None, _err_text()))
     pair_fails = []
     n_pair = 0
     for c, pres, err in pair_results(ctx):
         n_pair += 1
         if pres is None:
-            pair_fails.append({'class': 'radio_loop_raised', 'case': {k: v for k, v in c.items() if k != 'family'},
-                               'expected': 'no exception', 'observed': err, 'detail': 'two links on one dongle'})
+            if _crash_class(err):
+                pair_fails.append({'class': _crash_class(err), 'case': {k: v for k, v in c.items() if k != 'family'},
+                                   'expected': 'both sessions end, no exception', 'observed': err, 'detail': 'two links on one dongle'})
         else:
             pair_fails += judge_pair(c, pres)
     cmd_fail = None
+    cmd_crash = None
     n_cmd = 0
     for r in command_results(ctx):
         n_cmd += 1
         if r[1] is None:
+            if _crash_class(r[4]) and cmd_crash is None:
+                cmd_crash = (r[0], r[4])
             continue
         bad = [(req, act) for req, act, _ in r[4] if act is None or tuple(act) != tuple(req)]
         if bad and cmd_fail is None:
@@ -1247,6 +1308,11 @@ def oracle(ctx, deep=False):
     fails = []
     seen = set()
     n = n_stat + n_cmd + n_pair
+    if cmd_crash:
+        cls = _crash_class(cmd_crash[1])
+        seen.add(cls)
+        fails.append({'class': cls, 'case': {'cmds': _shrink_cmds(cmd_crash[0], crash=True)}, 'expected': 'every call returns',
+                      'observed': cmd_crash[1], 'detail': 'instances opened, used and closed on one shared dongle'})
     if cmd_fail:
         small = _shrink_cmds(cmd_fail[0])
         seen.add('send_on_wrong_tuning')
@@ -1262,8 +1328,11 @@ def oracle(ctx, deep=False):
     for c, sim, err in res:
         n += 1
         if sim is None:
-            fs = [{'class': 'radio_loop_raised', 'case': {k: v for k, v in c.items() if k != 'family'},
-                   'expected': 'no exception', 'observed': err, 'detail': 'the radio loop raised on a scripted session'}]
+            if _crash_class(err) is None:
+                continue
+            fs = [{'class': _crash_class(err), 'case': {k: v for k, v in c.items() if k != 'family'},
+                   'expected': 'the session ends, no exception', 'observed': err,
+                   'detail': 'the radio loop raised / a library thread is stuck for ever on a scripted session'}]
         else:
             fs = judge(c, sim)
         for f in fs:
@@ -1273,14 +1342,15 @@ def oracle(ctx, deep=False):
             small = f['case'] if f['case'].get('threaded') else _shrink(f['case'], f['class'])
             if small is not f['case']:
                 try:
-                    f2 = [x for x in judge(small, run_impl(small)) if x['class'] == f['class']]
+                    c01_radio_mod._blocks['shrinking'] = True
+                    f2 = [x for x in judge(small, run_impl(small, 3 if f['class'] == 'radio_thread_blocked' else None)) if x['class'] == f['class']]
                     if f2:
                         f = f2[0]
                 except Exception:
-                    import traceback
-                    if f['class'] == 'radio_loop_raised':     # the smaller script still kills the loop
-                        f = dict(f, case={k: v for k, v in small.items() if k != 'family'},
-                                 observed=traceback.format_exc()[-600:])
+                    if f['class'] in ('radio_loop_raised', 'radio_thread_blocked'):     # the smaller script still kills / blocks the loop
+                        f = dict(f, case={k: v for k, v in small.items() if k != 'family'}, observed=_err_text()[-700:])
+                finally:
+                    c01_radio_mod._blocks['shrinking'] = False
             fails.append(f)
     for f in pair_fails:                     # two-link histories last: a single-link input for the same class is simpler
         if f['class'] not in seen:
@@ -1296,14 +1366,19 @@ def oracle(ctx, deep=False):
 def replay(payload, ctx):
     c = payload['case']
     if c.get('pair'):
-        fs = judge_pair(c, run_impl(c))
+        try:
+            fs = judge_pair(c, run_impl(c))
+        except Exception:
+            err = _err_text()
+            return {'class': _crash_class(err) or 'radio_thread_blocked', 'observed': err[-500:]}
         want = payload.get('class')
         for f in fs:
             if want is None or f['class'] == want:
                 return f
         return fs[0] if fs else None
     if 'cmds' in c:
-        return {'class': 'send_on_wrong_tuning', 'observed': 'still mis-tuned'} if _cmds_fail(c['cmds']) else None
+        crash = payload.get('class') in ('radio_thread_blocked', 'radio_loop_raised')
+        return {'class': payload.get('class', 'send_on_wrong_tuning'), 'observed': 'still fails'} if _cmds_fail(c['cmds'], crash) else None
     if payload.get('class') == 'statistics_affect_the_link':
         try:
             a, b = run_impl(c), run_impl(dict(c, stats=1))
@@ -1313,8 +1388,9 @@ def replay(payload, ctx):
             return {'class': 'statistics_affect_the_link', 'observed': repr(e)}
     try:
         sim = run_impl(c)
-    except Exception as e:
-        return {'class': 'radio_loop_raised', 'observed': repr(e)}
+    except Exception:
+        err = _err_text()
+        return {'class': _crash_class(err) or 'radio_thread_blocked', 'observed': err[-500:]}
     fs = judge(c, sim)
     want = payload.get('class')
     for f in fs:
